@@ -186,7 +186,9 @@ pub fn acyclic_formula(rng: &mut StdRng, cfg: &GenCfg, row: i32) -> String {
     match rng.gen_range(0..8) {
         0 => format!("={}+{}", cell(rng), cell(rng)),
         1 => format!("=SUM({})", range(rng)),
-        2 => format!("=IF({}>2,{},\"x\")", cell(rng), cell(rng)),
+        // (`*1`: an IF that returns a bare reference to an empty cell gets an evaluation-order
+        // dependent value in this engine; that is C05/C07's subject, not the structure engine's)
+        2 => format!("=IF({}>2,{}*1,\"x\")", cell(rng), cell(rng)),
         3 => format!("=COUNT({})+1.5", range(rng)),
         4 => format!("=({})&\"-\"&({})", cell(rng), cell(rng)),
         5 => format!("=MAX({},{})", range(rng), cell(rng)),
